@@ -36,7 +36,7 @@ def tasks(tier):
     rest = [m for m in masks if bin(m).count("1") != 1]
     if quick:
         for m in single:
-            out.append({"n": 3, "masks": [m], "extras": True})
+            out.append({"n": 3, "masks": [m], "extras": True, "enum": False})
     else:
         rest = single + rest
     chunk = 6 if quick else 1
@@ -53,11 +53,11 @@ BOUNDS = {
     "quick": "all directed graphs over 1 and 2 states (every subset of ordered pairs incl. self-loops; and one of the variants {all self-loops internal, an internal "
     "transition between different states, a from_.any() edge to one target, a duplicated edge, from_.any() + internal}), all graphs over 3 states "
     "with 1..3 edges (the variants on the single-edge ones); "
-    "for every graph all assignments of initial/final flags and strict_states (symbolic); every definition is stated twice (the verdict may not depend on history) and an empty subclass with its own strict_states is validated again.",
+    "the states come from State attributes, from States.from_enum over an IntEnum whose first member is 0 (single final member passed bare), or from a States({...}) collection declared below the from_.any() event (quick: from_enum on the 1- and 2-state graphs only); for every graph all assignments of initial/final flags and strict_states (symbolic); every definition is stated twice (the verdict may not depend on history) and an empty subclass with its own strict_states is validated again.",
     "thorough": "all 512 edge sets over 3 states, with the internal / from_.any() / duplicate variants.",
 }
-OUTSIDE = "4 and 5 states (2^16 and 2^25 edge sets); States.from_enum / inheritance as the source of the states (C15); abstract base classes without states"
-OBLIGATIONS = ["subclass-revalidated", "accepted", "warned", "rejected", "rejected-strict", "any-edge", "internal-self", "internal-nonself-rejected", "no-events"]
+OUTSIDE = "4 and 5 states (2^16 and 2^25 edge sets); inheritance as the source of the states (C15); from_enum(use_enum_instance=True); abstract base classes without states"
+OBLIGATIONS = ["states-from-enum", "states-from-collection", "subclass-revalidated", "accepted", "warned", "rejected", "rejected-strict", "any-edge", "internal-self", "internal-nonself-rejected", "no-events"]
 ASSUMPTIONS = [
     "oracle: accept iff >=1 event, exactly one initial state, no transition out of a final state, internal only on self-transitions, all states reachable from the initial one; "
     "then a non-final state without outgoing transition, or (if a final state exists) without a path to a final state, raises under strict_states and warns otherwise",
@@ -102,14 +102,47 @@ def run(ctx, params):
     initial = [ctx.sym_bool(f"initial{i}") for i in range(n)]
     final = [ctx.sym_bool(f"final{i}") for i in range(n)]
     strict = ctx.sym_bool("strict")
+    # where the states come from: State attributes, States.from_enum (member values 0..n-1: the first one is falsy), or a
+    # States({...}) collection declared *below* the from_.any() event that has to cover its states
+    sources = ["plain"]
+    if params["extras"]:
+        if params.get("enum", True):
+            sources.append("enum")
+        if any_targets:
+            sources.append("collection")
+    source = sources[ctx.choose(len(sources), "source")]
+    if source == "enum":
+        n_ini = sum(1 for x in initial if x)
+        if n_ini != 1:
+            source = "plain"  # from_enum takes exactly one initial member
 
     # ------------------------------------------------ the class statement, under the tracer
     def class_statement(name):
         with warnings.catch_warnings(record=True) as caught_:
             warnings.simplefilter("always")
             try:
-                states = [State(initial=initial[i], final=final[i]) for i in range(n)]
-                attrs = {ids[i]: states[i] for i in range(n)}
+                if source == "enum":
+                    import enum
+
+                    from statemachine.states import States
+
+                    with ctx.notracing():
+                        E = enum.IntEnum("E", [(ids[i], i) for i in range(n)])
+                    fins = [E[ids[i]] for i in range(n) if final[i]]
+                    ini_member = [E[ids[i]] for i in range(n) if initial[i]][0]
+                    sts = States.from_enum(E, initial=ini_member, final=fins[0] if len(fins) == 1 else (fins or None))
+                    states = [getattr(sts, ids[i]) for i in range(n)]
+                    attrs = {"sts": sts}
+                elif source == "collection":
+                    from statemachine.states import States
+
+                    states = [State(initial=initial[i], final=final[i]) for i in range(n)]
+                    j0 = any_targets[0]
+                    attrs = {ids[j0]: states[j0], f"any{j0}": states[j0].from_.any()}
+                    attrs["sts"] = States({ids[i]: states[i] for i in range(n) if i != j0})
+                else:
+                    states = [State(initial=initial[i], final=final[i]) for i in range(n)]
+                    attrs = {ids[i]: states[i] for i in range(n)}
                 k = 0
                 for (i, j) in edges:
                     attrs[f"e{k}"] = states[i].to(states[j], internal=True) if (i, j) in internal else states[i].to(states[j])
@@ -121,7 +154,8 @@ def run(ctx, params):
                     attrs[f"e{k}"] = states[bad_internal[0]].to(states[bad_internal[1]], internal=True)
                     k += 1
                 for j in any_targets:
-                    attrs[f"any{j}"] = states[j].from_.any()
+                    if source != "collection":
+                        attrs[f"any{j}"] = states[j].from_.any()
                 cls_ = type(StateMachine)(name, (StateMachine,), attrs, strict_states=strict)
                 return "accepted", cls_, "", [w for w in caught_ if issubclass(w.category, UserWarning)]
             except InvalidDefinition as e:
@@ -179,11 +213,13 @@ def run(ctx, params):
         expect = "accepted"
     desc = {
         "n": n, "edges": edges, "internal": sorted(internal), "any": any_targets, "dup": dup, "bad_internal": bad_internal,
-        "initial": ini, "final": fin, "strict": st, "hard": hard, "soft": soft,
+        "initial": ini, "final": fin, "strict": st, "hard": hard, "soft": soft, "source": source,
     }
     got = outcome if outcome == "raised" else ("warned" if warned else "accepted")
     got2 = outcome2 if outcome2 == "raised" else ("warned" if warned2 else "accepted")
-    shape = "any" if any_targets else "plain"
+    shape = ("any" if any_targets else "plain") + ("" if source == "plain" else f":{source}")
+    if source != "plain":
+        ctx.cover(f"states-from-{source}")
     if got == expect and got2 != expect:
         raise Mismatch(f"verdict-depends-on-history:{shape}", f"the same definition stated twice: first {got}, second {got2} (expected {expect})", desc)
     if got != expect:
